@@ -396,6 +396,19 @@ func (r *Reporter) addTLC(st TLCStats) {
 	add("tlc_json_cases", st.Lines)
 }
 
+// countObs counts one (case, configuration) observation and whether it lies in the
+// envelope (no listed finding class masks it for this property and configuration).
+func (r *Reporter) countObs(inEnvelope bool) {
+	r.mu.Lock()
+	t, _ := r.Cov["observations"].(int64)
+	r.Cov["observations"] = t + 1
+	if inEnvelope {
+		e, _ := r.Cov["observations_in_envelope"].(int64)
+		r.Cov["observations_in_envelope"] = e + 1
+	}
+	r.mu.Unlock()
+}
+
 func (r *Reporter) addTraces(n int64) {
 	r.mu.Lock()
 	cur, _ := r.Cov["traces_validated_against_impl"].(int64)
